@@ -178,7 +178,7 @@ func init() {
 			}
 			atoms = append(atoms, gen.Atoms()...)
 			return &harness.Plan{
-				N:     size(tier, 150000, 2000000),
+				N:     size(tier, 150000, 3000000),
 				Setup: func(c *harness.Ctx) { hooksOn() },
 				Run: func(c *harness.Ctx, k int) {
 					hooksAlternate(k)
